@@ -68,27 +68,26 @@ Proof.
   unfold flags_ok in H. rewrite Forall_forall in H. exact (H (a, dir) Hin HP).
 Qed.
 
-(* The full second sentence of the property for summary tables, without the hypothesis on levels, is false of the
-   code: the recorded trace of [RemoveRecord T 1] on T(A, parent: Ref:T) summarised by `parent` issues the
-   reference clean-up of the summary table's group-by column at level 0 (known finding
-   C31-summary-ref-cleanup-direct).  Fed with the engine's levels, the model marks it direct as the engine does. *)
-Definition C31_summary_actions_nondirect (is_summary : str -> bool) : Prop := forall td d es s,
-  run td (init_st d) es = Ok s ->
-  forall a dir, In (a, dir) (combine (s_stored s) (s_direct s)) -> on_tables is_summary a = true -> dir = false.
-
-Theorem C31_refuted_summary_ref_cleanup : exists is_summary, ~ C31_summary_actions_nondirect is_summary.
+(* Regression example (finding C31-summary-ref-cleanup-direct, repaired in /repo by 0419780): the recorded trace of
+   [RemoveRecord T 1] on T(A, parent: Ref:T) summarised by `parent`.  The reference clean-up of the summary table's
+   group-by column is now issued at level 1, so the trace satisfies the hypothesis of C31_class_nondirect_partial for
+   the class "actions on the summary table" and no such action is direct.  (Before the repair that event was
+   recorded at level 0, which is exactly what the hypothesis excludes.) *)
+Example C31_regression_summary_ref_cleanup :
+  let tT := [84] in let tS := [84; 95; 115] in let cA := [65] in let cP := [112] in let ty := [65; 110; 121] in
+  let d := [(tT, mkTable [1; 2; 3] [(cA, mkCol ty [(1, 1); (2, 2); (3, 3)]); (cP, mkCol ty [(1, 0); (2, 1); (3, 1)])]);
+            (tS, mkTable [1; 2] [(cP, mkCol ty [(1, 0); (2, 1)])])] in
+  let es := [EDoc (RemoveRecord tT 1) 0 []; EDoc (BulkUpdateRecord tT [2; 3] [(cP, [0; 0])]) 0 [];
+             EDoc (UpdateRecord tS 2 [(cP, 0)]) 1 []; EDoc (RemoveRecord tS 2) 1 []] in
+  Forall (event_ok (on_tables (fun t => str_eqb t tS))) es /\
+  match run (fun _ => 0) (init_st d) es with
+  | Ok s => s_direct s = [true; true; false; false]
+  | Err _ => False
+  end.
 Proof.
-  set (tT := [84]). set (tS := [84; 95; 115]). set (cA := [65]). set (cP := [112]). set (ty := [65; 110; 121]).
-  exists (fun t => str_eqb t tS). intro H.
-  set (d := [(tT, mkTable [1; 2; 3] [(cA, mkCol ty [(1, 1); (2, 2); (3, 3)]); (cP, mkCol ty [(1, 0); (2, 1); (3, 1)])]);
-             (tS, mkTable [1; 2] [(cP, mkCol ty [(1, 0); (2, 1)])])]).
-  set (es := [EDoc (RemoveRecord tT 1) 0 []; EDoc (BulkUpdateRecord tT [2; 3] [(cP, [0; 0])]) 0 [];
-              EDoc (UpdateRecord tS 2 [(cP, 0)]) 0 []; EDoc (RemoveRecord tS 2) 1 []]).
-  destruct (run (fun _ => 0) (init_st d) es) as [s|] eqn:E; [|vm_compute in E; discriminate].
-  specialize (H (fun _ => 0) d es s E (UpdateRecord tS 2 [(cP, 0)]) true).
-  assert (Hin : In (UpdateRecord tS 2 [(cP, 0)], true) (combine (s_stored s) (s_direct s))).
-  { vm_compute in E. inversion E; subst s. cbn. right. right. left. reflexivity. }
-  specialize (H Hin eq_refl). discriminate.
+  cbv zeta. split.
+  - repeat constructor; cbn; intro H; try discriminate; reflexivity.
+  - vm_compute. reflexivity.
 Qed.
 
 (* Non-vacuity: a user update (direct), a summary-row addition at level 1 (non-direct), a calc flush
